@@ -350,7 +350,22 @@ func (w *Worker) obligation(st *State, what string, pos token.Pos, cond Term) {
 	w.job.PanicSites[site]++
 	w.job.mu.Unlock()
 	if can {
-		w.report(st, site, "panic", cond)
+		if p := st.procM; p != nil && p.catchDepth > 0 && p.catchDepth < len(st.frames) && !st.exited {
+			// inside a modelled process (verifRunMain): the Go runtime prints the panic and a stack
+			// trace to stderr and the process exits with status 2. That path goes on in the harness,
+			// whose assertions see the crash; the violation itself is reported as an assertion so
+			// that the native replay (the real binary run as a child process) can confirm it.
+			o := st.clone()
+			o.assume(cond)
+			w.emit(o, EvStderr, strLit("panic: runtime error: "+what+"\n\ngoroutine 1 [running]:\n"), "", mkBV(0, 64), mkBV(0, 64))
+			w.emit(o, EvExit, StrV{}, "", mkBV(2, 64), mkBV(0, 64))
+			o.exited = true
+			w.report(o, "process-dies-with-a-host-panic", "assert", mkBool(true))
+			o.frames = o.frames[:o.procM.catchDepth]
+			w.push(o)
+		} else {
+			w.report(st, site, "panic", cond)
+		}
 	}
 	if !cannot {
 		w.endPath("panic")
